@@ -154,6 +154,20 @@ struct TwoLoc {
     k8: i32,
     #[serde(default)]
     k9: i32,
+    #[serde(default)]
+    k10: i32,
+    #[serde(default)]
+    k11: i32,
+    #[serde(default)]
+    k12: bool,
+    #[serde(default)]
+    k13: i32,
+    #[serde(default)]
+    k14: i32,
+    #[serde(default)]
+    k15: bool,
+    #[serde(default)]
+    k16: i32,
 }
 
 #[derive(Debug, Deserialize)]
@@ -274,12 +288,15 @@ struct Block {
     lines: Vec<(u64, String)>,
     /// (gutter number of the source line above, display offset of the first caret)
     carets: Vec<(u64, usize)>,
+    /// (gutter number, column of the `|` bar of that source line, column of the bar of its marker line)
+    bars: Vec<(u64, usize, usize)>,
 }
 
 /// Parse the annotate-snippets style output into blocks.
 fn parse_blocks(text: &str) -> Vec<Block> {
     let mut blocks: Vec<Block> = Vec::new();
     let mut last_num: Option<u64> = None;
+    let mut last_bar = 0usize;
     for line in text.split('\n') {
         let t = line.trim_start();
         if let Some(rest) = t.strip_prefix("--> ") {
@@ -292,6 +309,7 @@ fn parse_blocks(text: &str) -> Vec<Block> {
                 header: l.zip(c),
                 lines: vec![],
                 carets: vec![],
+                bars: vec![],
             });
             last_num = None;
             continue;
@@ -304,12 +322,14 @@ fn parse_blocks(text: &str) -> Vec<Block> {
             if let Ok(n) = lt.parse::<u64>() {
                 b.lines.push((n, right.to_string()));
                 last_num = Some(n);
+                last_bar = left.chars().count();
             }
         } else if lt.is_empty() {
             if let Some(pos) = right.find('^')
                 && right[..pos].chars().all(|c| c == ' ')
                 && let Some(n) = last_num
             {
+                b.bars.push((n, last_bar, left.chars().count()));
                 b.carets.push((n, right[..pos].chars().count()));
             } else if right.trim_start().chars().next().map(|c| c.is_alphabetic()).unwrap_or(false) {
                 // a text line inside the gutter ("This value comes indirectly from the anchor at line L
@@ -325,6 +345,7 @@ fn parse_blocks(text: &str) -> Vec<Block> {
                     header,
                     lines: vec![],
                     carets: vec![],
+                    bars: vec![],
                 });
                 last_num = None;
             }
@@ -570,6 +591,15 @@ pub fn exec(c: &RenderCase, st: &mut Stats) -> Vec<Viol> {
                     ));
                 }
             }
+            // the marker line's bar stands under the bar of the source line (else every caret is shifted)
+            for (n, line_bar, marker_bar) in &b.bars {
+                if line_bar != marker_bar {
+                    out.push(mk(
+                        "marker-gutter-misaligned",
+                        format!("{name}: line {n} has its `|` in column {line_bar}, the marker line below it in column {marker_bar}"),
+                    ));
+                }
+            }
             // 4. + 6. marker
             for (n, off) in &b.carets {
                 st.bump("caret.checked");
@@ -739,8 +769,10 @@ fn gen_validation_doc(rng: &mut Rng, target: RTarget) -> String {
 
 fn gen_two_location_doc(rng: &mut Rng) -> String {
     // definition on an i32 line, use on a bool line below it; 1..4 lines apart; more lines below
-    let (d, u) = *rng.pick(&[(1usize, 3usize), (2, 3), (1, 5), (2, 5), (4, 5)]);
-    let n = rng.range(u, 9);
+    // (also with two-digit line numbers, where the gutter is wider, and with a tab in front of the value)
+    let (d, u) = *rng.pick(&[(1usize, 3usize), (2, 3), (1, 5), (2, 5), (4, 5), (9, 12), (10, 12), (11, 12), (8, 12), (13, 15), (14, 15), (6, 15)]);
+    let n = rng.range(u, if u > 9 { 16 } else { 9 });
+    let tab = rng.chance(1, 4);
     let eol = if rng.chance(1, 5) { "\r\n" } else { "\n" };
     let mut s = String::new();
     for i in 1..=n {
@@ -748,12 +780,16 @@ fn gen_two_location_doc(rng: &mut Rng) -> String {
             format!("&val {}", rng.pick(&["42", "\"4\\e[31m2\"", "0x2A", "'fortytwo'"]))
         } else if i == u {
             "*val".to_string()
-        } else if i == 3 || i == 5 {
+        } else if i == 3 || i == 5 || i == 12 || i == 15 {
             "true".to_string()
         } else {
             rng.below(100).to_string()
         };
-        s.push_str(&format!("k{i}: {v}{eol}"));
+        if tab && (i == d || i == u) {
+            s.push_str(&format!("k{i}:\t{v}{eol}"));
+        } else {
+            s.push_str(&format!("k{i}: {v}{eol}"));
+        }
     }
     s
 }
